@@ -527,6 +527,16 @@ CLAIMED = {
     },
 }
 
+# Props/CurTransfer.v: the run-level headline theorems of these four properties as compiled statements about
+# run_shapes_cur / run_shexc_cur (the code's order of the shexing stage); gated by core.EXTRA_PROPS
+_CUR = ("  The run-level headline theorems are restated for the code's current order of the shexing stage "
+        "(RunCur.run_shapes_cur / run_shexc_cur, the functions the correspondence runs against /repo) as compiled "
+        "statements in Props/CurTransfer.v (Cur_%s_*: _keep = remove_empty_shapes off, any frequency algebra; "
+        "_valid = binary64, class_iris_ok, threshold <= 1, fewer than 2^53 triples), part of the proof gate.")
+for _k in ("C04", "C05", "C09", "C13"):
+    CLAIMED[_k]["note"] = CLAIMED[_k]["note"] + _CUR % _k
+
+
 NOT_YET = {}
 
 PROPS = ["C%02d" % i for i in range(1, 21)]
